@@ -34,6 +34,9 @@ let domain_ok d =
   && (let last = List.nth ls (List.length ls - 1) in String.length last >= 2
       && (match last.[String.length last - 1] with 'a'..'z' | 'A'..'Z' -> true | _ -> false))
 
+let local_literals = ref []
+let other_literals = ref ["[192.0.2.77]"; "[ipv6:2001:db8::77]"; "[192.0.2.2]"; "[ipv6:2001:db8::2]"]   (* every literal the generator uses; a valid literal that is not the local address has no users *)
+
 let o_helo (arg : n list) : bool =
   let s = str_of_bytes arg in
   let rec trim s = if s <> "" && s.[String.length s - 1] = ' ' then trim (String.sub s 0 (String.length s - 1)) else s in
@@ -55,6 +58,11 @@ let o_addr (is_rcpt : bool) (arg : n list) : ap_result =
           | None -> if is_rcpt && String.lowercase_ascii inner = "postmaster" then AP_ok (bytes_of_str inner, more, RLocal) else AP_syntax
           | Some k ->
               let local = String.sub inner 0 k and dom = String.lowercase_ascii (String.sub inner (k + 1) (String.length inner - k - 1)) in
+              if local <> "" && String.for_all is_atext local && is_rcpt && List.mem dom !local_literals then
+                AP_ok (bytes_of_str (local ^ "@" ^ dom), more, RLocal)      (* literal of the local IP: accepted for any local part *)
+              else if local <> "" && String.for_all is_atext local && is_rcpt && String.length dom > 2 && dom.[0] = '[' && List.mem dom !other_literals then
+                AP_nouser
+              else
               if local = "" || not (String.for_all is_atext local) || not (domain_ok dom) then AP_syntax
               else
                 let addr = bytes_of_str (local ^ "@" ^ dom) in
@@ -95,6 +103,9 @@ let make_oracles cfg : oracles =
   let relay = cfg "relay" "none" and ip = cfg "ip" "v4" in
   let plan = List.filter (fun x -> x <> "") (String.split_on_char ',' (cfg "qq" "")) in
   let remoteip = if ip = "v4" then "::ffff:192.0.2.1" else "2001:db8::1" in
+  (* an IPv6 literal of the local address is never recognised: addrsyntax lower-cases the address and addrparse
+     then compares the tag with "IPv6:" case-sensitively *)
+  local_literals := (if ip = "v4" then ["[192.0.2.2]"] else []);
   { o_helo = o_helo; o_addr = o_addr; o_ext = o_ext;
     o_relay = (match relay with "listed" -> Zpos XH | "none" | "unlisted" -> Z0 | _ -> Zneg XH);
     o_mx = (fun a -> let s = str_of_bytes a in
@@ -104,19 +115,25 @@ let make_oracles cfg : oracles =
         | None | Some "ok" -> QQ_ok
         | Some p when starts_with p "exit:" ->
             let c = int_of_string (String.sub p 5 (String.length p - 5)) in if c = 0 then QQ_ok else QQ_exit (nat_of_int c)
+        | Some p when starts_with p "ce:" -> QQ_die_write
         | Some p when starts_with p "die:" ->
             if starts_with p "die:a" then (if ends_with p ":sig" then QQ_signal else
                                              let c = int_of_string (List.nth (String.split_on_char ':' p) 3) in
                                              if c = 0 then QQ_ok else QQ_exit (nat_of_int c))
+            else if starts_with p "die:b" then QQ_die_early
+            else if starts_with p "die:m" && int_of_string (List.nth (String.split_on_char ':' p) 2) <= 150 then QQ_die_early
             else QQ_die_write
         | Some _ -> QQ_ok);
     o_databytes = n_of_int (int_of_string (cfg "databytes" "0"));
+    o_liphost = bytes_of_str "mail.example.org";
+    (* the trace header is the extracted model of write_received() / spfreceived(SPF_NONE) *)
     o_trace = (fun helo from esmtp first relayclient ->
-        let helo = str_of_bytes helo and from = str_of_bytes from and first = str_of_bytes first in
-        let spf = if int_of_n relayclient = 1 then "" else
-            "Received-SPF: None (mail.example.org: domain of " ^ (if from = "" then helo else from) ^ " does not designate permitted sender hosts)\n" in
-        bytes_of_str (spf ^ "Received: from unknown ([" ^ remoteip ^ "]:1234" ^ (if helo = "" then "" else " HELO " ^ helo) ^ ")\n\tby mail.example.org (Qsmtpd 0.39dev) with "
-                      ^ (if esmtp then "ESMTP" else "SMTP") ^ "\n\tfor <" ^ first ^ ">; " ^ String.make 31 'D' ^ "\n")) }
+        trace_header
+          { t_remotehost = []; t_authhide = false; t_remoteip = bytes_of_str remoteip; t_remoteport = Some (bytes_of_str "1234");
+            t_helostr = helo; t_authname = []; t_tlsclient = None; t_remoteinfo = None;
+            t_heloname = bytes_of_str "mail.example.org"; t_version = bytes_of_str "Qsmtpd 0.39dev";
+            t_esmtp = esmtp; t_cipher = None; t_chunked = false; t_first = first; t_date = bytes_of_str (String.make 31 'D') }
+          from (int_of_n relayclient = 1)) }
 
 (* ---- end copy ---- *)
 
@@ -126,12 +143,15 @@ let make_toracles cfg : toracles =
   let ip = cfg "ip" "v4" in
   let remoteip = if ip = "v4" then "::ffff:192.0.2.1" else "2001:db8::1" in
   { o_clear = oc;
+    (* the extracted model of write_received() with a TLS session: "(<cipher> encrypted) ESMTPS"; the runner masks the cipher name *)
     o_trace_tls = (fun helo from esmtp first relayclient ->
-        let helo = str_of_bytes helo and from = str_of_bytes from and first = str_of_bytes first in
-        let spf = if int_of_n relayclient = 1 then "" else
-            "Received-SPF: None (mail.example.org: domain of " ^ (if from = "" then helo else from) ^ " does not designate permitted sender hosts)\n" in
-        bytes_of_str (spf ^ "Received: from unknown ([" ^ remoteip ^ "]:1234" ^ (if helo = "" then "" else " HELO " ^ helo) ^ ")\n\tby mail.example.org (Qsmtpd 0.39dev) with "
-                      ^ (if esmtp then "(CIPHER encrypted) ESMTPS" else "SMTP") ^ "\n\tfor <" ^ first ^ ">; " ^ String.make 31 'D' ^ "\n"));
+        trace_header
+          { t_remotehost = []; t_authhide = false; t_remoteip = bytes_of_str remoteip; t_remoteport = Some (bytes_of_str "1234");
+            t_helostr = helo; t_authname = []; t_tlsclient = None; t_remoteinfo = None;
+            t_heloname = bytes_of_str "mail.example.org"; t_version = bytes_of_str "Qsmtpd 0.39dev";
+            t_esmtp = esmtp; t_cipher = Some (bytes_of_str "CIPHER"); t_chunked = false; t_first = first;
+            t_date = bytes_of_str (String.make 31 'D') }
+          from (int_of_n relayclient = 1));
     o_certfile = (cert <> "none");
     o_tlsinit = (cert = "good");
     o_eat = nat_of_int 5 }
